@@ -1750,8 +1750,16 @@ func c13IndentShape(c *Ctx) {
 			if withP != nil && withE != nil {
 				// withP is the block on the true edge of `if includeFirst`
 				for _, b := range fn.Blocks {
-					if iff, isIf := b.Instrs[len(b.Instrs)-1].(*ssa.If); isIf && unwrapLoad(iff.Cond) == includeFirst {
-						if b.Succs[0] == withP && (b == withE || b.Succs[1] == withE || b.Succs[1] == sel.Block()) {
+					if iff, isIf := b.Instrs[len(b.Instrs)-1].(*ssa.If); isIf {
+						pol, isTest := boolTestOf(iff.Cond, includeFirst)
+						if !isTest {
+							continue
+						}
+						yes, no := b.Succs[0], b.Succs[1]
+						if !pol {
+							yes, no = no, yes
+						}
+						if yes == withP && (b == withE || no == withE || no == sel.Block()) {
 							okFirst = true
 						}
 					}
@@ -1771,8 +1779,16 @@ func c13IndentShape(c *Ctx) {
 			blk := r.Block()
 			if m == "WriteString" && unwrapLoad(call.Call.Args[1]) == prefix && len(blk.Preds) == 1 {
 				pred := blk.Preds[0]
-				if iff, isIf := pred.Instrs[len(pred.Instrs)-1].(*ssa.If); isIf && unwrapLoad(iff.Cond) == includeFirst && pred.Succs[0] == blk && pred.Succs[1] != blk {
-					okFirst = true
+				if iff, isIf := pred.Instrs[len(pred.Instrs)-1].(*ssa.If); isIf {
+					if pol, isTest := boolTestOf(iff.Cond, includeFirst); isTest {
+						yes, no := pred.Succs[0], pred.Succs[1]
+						if !pol {
+							yes, no = no, yes
+						}
+						if yes == blk && no != blk {
+							okFirst = true
+						}
+					}
 				}
 			}
 		}
@@ -2577,4 +2593,47 @@ func c13SnipResult(c *Ctx, fn *ssa.Function, kept *ssa.Phi, ellipsis ssa.Value) 
 		walk(ret.Results[0], 0)
 		c.check(okRes, fname+"/snip-result", P.InstrPos(ret), fname, "the kept lines joined with line feeds, plus possibly the ellipsis", "Snip returns something else than the kept lines joined with line feeds and, at most, the ellipsis behind them")
 	})
+}
+
+// boolTestOf: cond tests the boolean value p — `p`, `!p`, `p == true`, `p !=
+// true`, `p == false`, … (also for a named boolean type and its constants).
+// polarity: the truth of cond when p is true.
+func boolTestOf(cond, p ssa.Value) (polarity, ok bool) {
+	polarity = true
+	for d := 0; d < 6; d++ {
+		cond = unwrapLoad(cond)
+		if ct, isCT := cond.(*ssa.ChangeType); isCT {
+			cond = ct.X
+			continue
+		}
+		if cond == p {
+			return polarity, true
+		}
+		switch x := cond.(type) {
+		case *ssa.UnOp:
+			if x.Op != token.NOT {
+				return false, false
+			}
+			polarity, cond = !polarity, x.X
+		case *ssa.BinOp:
+			if x.Op != token.EQL && x.Op != token.NEQ {
+				return false, false
+			}
+			side, k := x.X, x.Y
+			if _, isC := side.(*ssa.Const); isC {
+				side, k = k, side
+			}
+			kc, isC := k.(*ssa.Const)
+			if !isC || kc.Value == nil || kc.Value.Kind() != constant.Bool {
+				return false, false
+			}
+			if constant.BoolVal(kc.Value) != (x.Op == token.EQL) {
+				polarity = !polarity
+			}
+			cond = side
+		default:
+			return false, false
+		}
+	}
+	return false, false
 }
